@@ -131,7 +131,25 @@ func compareTypes(tree *ParserT, leftNode *astNodeT, rightNode *astNodeT) (any, 
 		rv = right.Value
 	}
 
-	if left.DataType == right.DataType || notCompatible {
+	if notCompatible {
+		// one side is not a comparable primitive and is compared in its string form: the
+		// other side must be a string too (the callers type-assert both sides alike)
+		if _, ok := lv.(string); !ok {
+			lv, err = types.ConvertGoType(lv, types.String)
+			if err != nil {
+				return nil, nil, err
+			}
+		}
+		if _, ok := rv.(string); !ok {
+			rv, err = types.ConvertGoType(rv, types.String)
+			if err != nil {
+				return nil, nil, err
+			}
+		}
+		return lv, rv, nil
+	}
+
+	if left.DataType == right.DataType {
 		return lv, rv, nil
 	}
 
